@@ -85,6 +85,10 @@ THEOREMS = [
     "Verif.C14.jacobian_entry_chain_rule",
     "Verif.C14.unused_parameter_column_zero",
     "Verif.C14.jacobianV_eq",
+    "Verif.C14.add_noise_free_data_then_refit_unchanged",
+    "Verif.C14.model_residual_length",
+    "Verif.C14.residual_length",
+    "Verif.C14.addData_dataOk",
     "Verif.C14.collision_breaks_recovery",
 ]
 RULE = (
@@ -348,6 +352,11 @@ class Recorder:
         return False
 
 
+import collections as _collections
+
+GROUPS = _collections.Counter()  # which branch of the grouping the queries went through
+
+
 def observe(fit, models, strict=True):
     P = fit.params
     items = list(P.items())
@@ -379,6 +388,8 @@ def observe(fit, models, strict=True):
         byidx = {}
         for cond, dl in ds.conditions():
             v = cond.get_local_params(vals)
+            GROUPS["datasets per condition = " + str(len(dl))] += 1
+            GROUPS["datasets evaluated with the Condition of an earlier dataset"] += max(0, len(dl) - 1)
             for d in dl:
                 byidx[d.name] = v
                 if seen is not None and id(d.x) in seen:
@@ -831,12 +842,25 @@ def _ans_agree(ia, ma):
 RESID_TOL = 1e-9  # DESIGN 2.2: the implementation's double against the exact rational, relative to the magnitude of the terms
 
 
+def _flist(s_):
+    """'[p/q,...]' -> floats (int/int true division is correctly rounded: the exact double when p/q is one)"""
+    body = s_[1:-1]
+    if body == "":
+        return []
+    out = []
+    for x in body.split(","):
+        p_, q_ = x.split("/")
+        out.append(int(p_) / int(q_))
+    return out
+
+
 def _vec_close(iv, mv, sc):
     """implementation's residual vector (exact rationals of its doubles) against the model's exact one"""
     if len(iv) != len(mv) or len(sc) != len(mv):
         return False
+    # doubles: each side is rounded by at most 1e-16 of the term magnitudes, far below the tolerance
     for a, b, s_ in zip(iv, mv, sc):
-        if abs(a - b) > Fraction(RESID_TOL) * s_ + Fraction(1, 10**300):
+        if not abs(a - b) <= RESID_TOL * s_ + 1e-300:
             return False
     RESID["entries_compared_with_model"] += len(mv)
     RESID["vectors_compared_with_model"] += 1
@@ -862,7 +886,7 @@ def _resid_obs_agree(io, mo):
         if "bad-float" in a:
             RESID["non_finite_entries_skipped"] += 1
             continue
-        if not _vec_close(parse_ratlist(a), parse_ratlist(mv), parse_ratlist(sc)):
+        if not _vec_close(_flist(a), _flist(mv), _flist(sc)):
             return False
     return True
 
@@ -883,6 +907,10 @@ def _jac_obs_agree(io, mo):
         return io == mo
     if not io[1:].startswith("[") or "bad-float" in io:
         return False
+    if io == mo:  # the toy sensitivities are exact dyadic numbers: normally the very same rationals
+        RESID["jac:entries_compared_with_model"] += mo.count("/")
+        RESID["jac:matrices_compared_with_model"] += 1
+        return True
     a, b = parse_mat(io[1:]), parse_mat(mo[1:])
     if len(a) != len(b):
         return False
@@ -1041,26 +1069,31 @@ def _oracle_resid(case, ia):
             # n, minus the sum of x^k over ALL model parameters k the dataset maps to n (chain rule: one term per path),
             # zero in the column of a parameter the dataset does not use - compared as a multiset of rows
             names = [r_[0] for r_ in parse_table(o.split(" L", 1)[0])]
-            got = sorted(parse_mat(jcs[k][1:]))
-            exp = []
+            jb = jcs[k][2:-1]
+            got = _collections.Counter(jb[1:-1].split("],[")) if jb else _collections.Counter()
+            exp = _collections.Counter()
+            nexp = 0
             for mi_, hm in enumerate(parse_held(o)):
                 for name, (xb, _) in hm.items():
                     tg = targets[mi_].get(name)
                     if tg is None:
                         exp = None
                         break
+                    cols = [[j for j, t in enumerate(tg) if t.get("n") == n_] for n_ in names]
                     for b_ in xb:
                         xv = _bits_to_frac(b_)
-                        exp.append([-sum((xv**j for j, t in enumerate(tg) if t.get("n") == n_), Fraction(0)) for n_ in names])
+                        pw = [xv**j for j in range(len(tg))]
+                        row = [-sum((pw[j] for j in c_), Fraction(0)) for c_ in cols]
+                        exp[",".join(f"{v.numerator}/{v.denominator}" for v in row)] += 1
+                        nexp += 1
                 if exp is None:
                     break
             if exp is not None:
-                exp.sort()
-                RESID["oracle:jac_rows_recomputed"] += len(exp)
+                RESID["oracle:jac_rows_recomputed"] += nexp
                 if got != exp:
-                    bad = next((g_ for g_, e_ in zip(got, exp) if g_ != e_), None)
+                    bad = next(iter((got - exp).keys()), None)
                     return (("sees[condition-string-collision]: " if coll else "") + f"jacobian-matrix: d(residual)/d(parameters {names}) handed to the optimiser is not the chain-rule sum over the "
-                            f"parameters each dataset maps to each name: {len(got)} rows, expected {len(exp)}; first differing row {[str(v) for v in (bad or [])]}")
+                            f"parameters each dataset maps to each name: {sum(got.values())} rows, expected {nexp}; a row that should not be there: [{bad}]")
         if k >= len(res):
             return f"residual: no residual observation for action {act['a']}"
         r = res[k]
@@ -1072,37 +1105,39 @@ def _oracle_resid(case, ia):
                 return f"residual: the residual of the fit could not be evaluated at a query: {r[:120]}"
             if "bad-" in r:
                 continue
-            got = sorted(parse_ratlist(r[1:]))
+            got = sorted(_flist(r[1:]))
             _, per = parse_query(o)
             held = parse_held(o)
             exp = []
-            scale = Fraction(1)
+            scale = 1.0
             skip = False
             for dsm, hm in zip(per, held):
                 for name, (_, byname) in dsm.items():
                     if byname is None or name not in hm:
                         skip = True
                         continue
+                    pf = [float(v) for v in byname]
                     for xb, yb in zip(*hm[name]):
-                        xv, yv = _bits_to_frac(xb), _bits_to_frac(yb)
-                        terms = [pk * xv**j for j, pk in enumerate(byname)]
-                        exp.append(yv - sum(terms, Fraction(0)))
-                        scale = max(scale, abs(yv) + sum((abs(t) for t in terms), Fraction(0)))
+                        xv = struct.unpack("<d", struct.pack("<Q", int(xb)))[0]
+                        yv = struct.unpack("<d", struct.pack("<Q", int(yb)))[0]
+                        terms = [pk * xv**j for j, pk in enumerate(pf)]
+                        exp.append(yv - math.fsum(terms))
+                        scale = max(scale, abs(yv) + math.fsum(abs(t) for t in terms))
             if skip:
                 continue
             exp.sort()
             RESID["oracle:entries_recomputed"] += len(exp)
-            if len(exp) != len(got) or any(abs(a - b) > Fraction(RESID_TOL) * scale for a, b in zip(got, exp)):
-                return (("sees[condition-string-collision]: " if coll else "") + f"residual: the fit evaluates the residual {[float(v) for v in got][:12]} (sorted) but the samples the datasets hold and the "
-                        f"parameters each dataset is mapped to (by name) give {[float(v) for v in exp][:12]}")
+            if len(exp) != len(got) or any(not abs(a - b) <= RESID_TOL * scale for a, b in zip(got, exp)):
+                return (("sees[condition-string-collision]: " if coll else "") + f"residual: the fit evaluates the residual {got[:12]} (sorted) but the samples the datasets hold and the "
+                        f"parameters each dataset is mapped to (by name) give {exp[:12]}")
         else:
             if r == "f-" or ">" not in r or "bad-" in r or "raised" in r:
                 continue
             a, b = r[1:].split(">")
-            c0 = sum((v * v for v in parse_ratlist(a)), Fraction(0))
-            c1 = sum((v * v for v in parse_ratlist(b)), Fraction(0))
+            c0 = math.fsum(v * v for v in _flist(a))
+            c1 = math.fsum(v * v for v in _flist(b))
             RESID["oracle:descent_checked"] += 1
-            if c1 > c0 * (1 + Fraction(1, 10**9)) + Fraction(1, 10**18):
+            if not c1 <= c0 * (1 + 1e-9) + 1e-18:
                 return f"optimiser-contract: least_squares answered a point with a larger sum of squares ({float(c1)!r}) than its start ({float(c0)!r})"
             if c0 == 0:
                 RESID["oracle:refit_from_zero_residual"] += 1
@@ -2000,6 +2035,7 @@ def extra_coverage(results):
         "counts": dict(COUNTS),
         "private_ties": dict(PRIVATE_TIES),
         "residual_tie": dict(RESID),
+        "condition_groups_at_queries": dict(GROUPS),
         "recovery_exploration": recover,
         "exhaustive": False,
         "exhaustive_note": "the small-scope stream enumerates its finite space completely; the random and recovery streams do not; recovery of generating parameters is exploration, not proof",
